@@ -196,7 +196,12 @@ class Checker:
             raise FileNotFoundError(path)
 
         root = Path(path)
-        if root.name == self.name:
+        name = root.name
+        if name in ("", ".."):
+            # "." or a path ending in "..": the name is that of the
+            # directory the path leads to
+            name = os.path.basename(os.path.realpath(path))
+        if name == self.name:
             self.log_msg("Content found: %s.", str(root))
             return root
 
